@@ -130,39 +130,86 @@ def run(chk, facts):
     try:
         ga = syn.one_fn("gen_arguments", mod="generate")
         loc = facts.loc_of(ga)
-        m = None
-        for n in walk(ga["body"]):
-            if n.get("k") == "match" and "convert_node(" in src(n["e"]):
-                m = n
-        if m is None:
-            raise AnchorError("gen_arguments: no match on the converted node")
-        arms = m["arms"]
-        blk = [a for a in arms if "Core::Block" in src(a["pat"])]
-        oth = [a for a in arms if "Core::Block" not in src(a["pat"])]
-        def prepends(a, tail):
-            for n in walk(a["body"]):
-                if n.get("k") == "struct" and n["p"] == "Core::Block":
-                    for f, v in n["fields"]:
-                        if f == "statements":
-                            s = src(strip(v)).replace(" ", "")
-                            return s.startswith("import.imports().into_iter().chain(") and s.endswith(").collect()") and tail in s
-            return False
-        ok1 = len(blk) == 1 and prepends(blk[0], "chain(statements)")
-        chk.ob("R-C16-2", "gen_arguments:block", ok1, "a module block gets imports() prepended, unfiltered" if ok1 else
-               "gen_arguments no longer prepends the unfiltered imports() to the module's statements (a filtered or re-ordered import list can drop a needed import)", loc)
-        guarded = [a for a in oth if a.get("guard") and src(strip(a["guard"])).replace(" ", "") == "!import.is_empty()"]
-        ok2 = len(guarded) == 1 and prepends(guarded[0], "chain(")
-        bare = [a for a in oth if not a.get("guard")]
-        ok3 = len(bare) == 1 and arms.index(bare[0]) > arms.index(guarded[0]) if guarded and bare else False
-        chk.ob("R-C16-2", "gen_arguments:single-node", ok2 and ok3, "a single node is wrapped with the imports whenever any were collected" if ok2 and ok3 else
-               "gen_arguments can return a node without the imports that were collected for it", loc)
+        # Decided on the enumerated paths and on what happens to the list `imports()` returns - not on the shape of the match:
+        #  (1) a bare node (no block built) is returned only on paths where the collected imports are known to be empty;
+        #  (2) the list returned by imports() is used as it is: it is the *front* of the module's statements (receiver of `chain`, or
+        #      the vector that is extended), and nothing that can drop, reorder or cut elements is applied to it.
+        from .common import fn_paths, unwrap_ok
+        from .c11 import parents_map as _pm
+        paths = fn_paths(ga["body"])
+        bare_unguarded = 0
+        n_block = n_bare = 0
+        for p_ in paths:
+            if p_.result is None:
+                continue
+            r_ = unwrap_ok(p_.result)
+            has_block = any(n.get("k") == "struct" and n["p"] == "Core::Block" for n in walk(r_)) or \
+                any(n.get("k") == "struct" and n["p"] == "Core::Block" for ev in p_.events for n in walk(ev))
+            if has_block:
+                n_block += 1
+                continue
+            if src(strip(r_)).startswith("Err("):
+                continue
+            n_bare += 1
+            emp = [pol if not c.startswith("!") else (not pol) for c, pol in p_.conds if re.fullmatch(r"!?\(?\w*import\w*\.is_empty\(\)\)?", c)]
+            if not (emp and emp[-1]):
+                bare_unguarded += 1
+        ok23 = n_block >= 1 and bare_unguarded == 0
+        imp_calls = [n for n in walk(ga["body"]) if n.get("k") == "mcall" and n["m"] == "imports" and not n["args"]]
+        pm_ = _pm(ga["body"])
+        BAD = {"filter", "filter_map", "retain", "take", "skip", "truncate", "dedup", "dedup_by_key", "sort", "sort_by", "sort_by_key", "sorted", "rev", "pop", "remove",
+               "drain", "split_off", "take_while", "skip_while", "step_by", "unique", "swap_remove", "clear"}
+        misuse = []
+        for ic in imp_calls:
+            # methods applied on the value (up the receiver chain)
+            cur = ic
+            while True:
+                par, key = pm_.get(id(cur), (None, None))
+                if par is None:
+                    break
+                if par.get("k") == "mcall" and key == "recv":
+                    if par["m"] in BAD:
+                        misuse.append(par["m"])
+                    cur = par
+                    continue
+                if par.get("k") == "mcall" and key == "args" and par["m"] in ("chain", "extend", "append"):
+                    misuse.append(f"imports() is the argument of {par['m']}: it no longer comes first")
+                if par.get("k") == "local":
+                    # bound to a local: what is applied to that local later?
+                    nm = [x["name"] for x in walk(par["pat"]) if x.get("k") == "pident"]
+                    for n in walk(ga["body"]):
+                        if n.get("k") == "mcall" and src(strip(n["recv"])) in nm and n["m"] in BAD:
+                            misuse.append(n["m"])
+                        if n.get("k") == "mcall" and n["m"] in ("chain", "extend", "append") and n["args"] and src(strip(n["args"][0])) in nm:
+                            misuse.append(f"the imports are the argument of {n['m']}: they no longer come first")
+                break
+        ok1 = len(imp_calls) >= 1 and not misuse
+        chk.ob("R-C16-2", "gen_arguments:block", ok1, "the module's statements start with imports(), unfiltered" if ok1 else
+               f"gen_arguments no longer puts the unfiltered imports() in front of the module's statements ({misuse[:2] or 'imports() is not used'}): "
+               "a filtered or re-ordered import list can drop a needed import", loc)
+        chk.ob("R-C16-2", "gen_arguments:single-node", ok23, "a node is returned without a block only when no import was collected" if ok23 else
+               f"gen_arguments can return a node without the imports that were collected for it ({bare_unguarded} bare path(s) without an emptiness test, {n_block} block path(s))", loc)
         ai = syn.one_fn("add_import", impl_of="Imports")
         s = src(ai["body"]).replace(" ", "")
         ok = "if!self.imports.contains(&import){self.imports.push(import)" in s
         chk.ob("R-C16-2", "add_import:dedup", ok, "add_import pushes only when the import is not present" if ok else "add_import no longer tests `contains` before pushing: duplicates are emitted", facts.loc_of(ai))
         af = syn.one_fn("add_from_import", impl_of="Imports")
         s = src(af["body"]).replace(" ", "")
-        ok = "self.from_imports.get(&String::from(from))" in s and "if!imports.contains(&new)" in s and s.count("self.from_imports.insert(String::from(from),import)") == 2
+        # one entry per module: the entry is looked up and stored under the module name; a name is appended only when the entry does
+        # not contain it yet (whatever the locals are called, one insert site or two)
+        inserts = [n for n in walk(af["body"]) if n.get("k") == "mcall" and n["m"] == "insert" and src(strip(n["recv"])).replace(" ", "") == "self.from_imports"]
+        keyed = bool(inserts) and all(src(n["args"][0]).replace(" ", "") == "String::from(from)" for n in inserts)
+        dedup = False
+        for n in walk(af["body"]):
+            if n.get("k") == "if":
+                c_ = src(strip(n["c"])).replace(" ", "")
+                m_ = re.fullmatch(r"\(?!(\w+)\.contains\(&(\w+)\)\)?", c_)
+                if m_ and n.get("else") is not None:
+                    new_name = m_.group(2)
+                    from .common import idents_in
+                    if new_name in idents_in(n["then"]) and new_name not in idents_in(n["else"]) and m_.group(1) in idents_in(n["else"]):
+                        dedup = True
+        ok = "self.from_imports.get(&String::from(from))" in s and keyed and dedup
         chk.ob("R-C16-2", "add_from_import:dedup", ok, "add_from_import keeps one entry per module and adds a name only when it is new" if ok else
                "add_from_import changed shape: a module can be imported twice or a name repeated", facts.loc_of(af))
         st = syn.structs.get("generate::convert::state::Imports")
